@@ -1,5 +1,6 @@
 import PicoVerif.Model.Writers
 import PicoVerif.Lemmas.C02
+import PicoVerif.Spec.Pico8Api
 /-! C02 — luamin renaming is a consistent injection that respects reserved names.
 `run cfg ns` is the list of output names for a request history `ns` (every identifier occurrence of the
 program in order: variables, fields, methods, parameters, labels — all go through `get_short_name`). -/
@@ -17,6 +18,15 @@ def run (cfg : NameCfg) (ns : List Bytes) : List Bytes := runFrom cfg {} ns
 theorem tables_ok : Gen.nameChars.length = 26 ∧ Gen.nameChars.Nodup ∧
     (Gen.luaKeywords.all fun k => Gen.preservedNames.contains k) = true ∧
     (Gen.pico8Builtins.all fun k => Gen.preservedNames.contains k) = true := by
+  decide +kernel
+
+/-- **C02.api_names_preserved**: every name of the PICO-8 API (the fixed list `Spec.pico8Api`, not regenerated) and every
+Lua keyword written out here is in the regenerated preserved set — so `kept` applies to each of them, and a name lost
+from picotool's table breaks this theorem. -/
+theorem api_names_preserved :
+    (Spec.pico8Api.all fun n => Gen.preservedNames.contains n) = true ∧ Spec.pico8Api.length = 125 ∧
+    (["and", "break", "do", "else", "elseif", "end", "false", "for", "function", "goto", "if", "in", "local", "nil", "not", "or",
+      "repeat", "return", "then", "true", "until", "while"].all fun k => Gen.preservedNames.contains k.toUTF8.toList) = true := by
   decide +kernel
 
 /-- **C02.nameForId_inj**: the short-name enumeration never repeats a name (all ids, no bound). -/
